@@ -411,7 +411,14 @@ def run(repo: Repo, chk: Check, thorough: bool = False) -> None:
     pm = repo.func('pydoctor.model.System.processModule')
     cfp = CFG(pm)
     modp = pm.params()[1].arg
-    builds = [c for c in calls_in(pm) if call_name(c) in ('processModuleAST', 'parseFile', 'parseString', '_introspectThing')]
+    BUILD_CALLS = ('processModuleAST', 'parseFile', 'parseString', '_introspectThing')
+    builds = [c for c in calls_in(pm) if call_name(c) in BUILD_CALLS]
+    # (... or hands the module to a private method of the System that does: `self._processSourceModule(mod, name)`)
+    from ..util import impl_funcs as _impl10
+    for c in calls_in(pm):
+        for h in [g for g in _impl10(repo, pm, depth=1) if g is not pm and g.name == call_name(c)]:
+            if any(call_name(x) in BUILD_CALLS for g2 in _impl10(repo, h, depth=1) for x in calls_in(g2)):
+                builds.append(c)
     if not builds:
         raise AnalysisError('R10.7: System.processModule no longer calls the AST builder')
     from ..util import values_of as _values_of
